@@ -1,6 +1,6 @@
 From Coq Require Extraction.
 From Coq Require Import ExtrOcamlBasic.
-From RM Require Import C08.Model C11.Model C10.Stream C10.Driver C09.Grammar.
+From RM Require Import C08.Model C11.Model C10.Stream C10.ReadFail C10.Driver C09.Grammar.
 Extraction "c10_model.ml" run_case o_kind o_code o_line o_cb o_ncb o_nrd o_maxsp o_cap
   o_table o_dropped o_skind o_scode o_sline o_stable
   t_module_id t_debug_file t_files t_origins t_publics t_funcs t_cfi t_win_fd t_win_fpo t_url
@@ -8,4 +8,4 @@ Extraction "c10_model.ml" run_case o_kind o_code o_line o_cb o_ncb o_nrd o_maxsp
   l_addr l_size l_file l_line i_depth i_addr i_size i_cfile i_cline i_origin
   cr_addr cr_rules sc_init sc_size sc_add
   wi_addr wi_size wi_prolog wi_epilog wi_params wi_saved wi_locals wi_maxstack wi_thing
-  run_async run_stream run_trace first_rest tr_hash tr_events tr_grows tr_shifts tr_discards tr_recovered tr_zero_reads tr_full_reads.
+  run_async run_stream run_rfail run_trace first_rest tr_hash tr_events tr_grows tr_shifts tr_discards tr_recovered tr_zero_reads tr_full_reads.
